@@ -1004,3 +1004,25 @@ Proof.
   rewrite (which_zero _ _ _ Ho), IH. reflexivity.
 Qed.
 End Good.
+
+(* ---- children that are copies of a built pipeline object: the tag is forgotten, so every law about a tree holds for
+   the tree with copies and a scenario with copies denotes exactly what the scenario without them denotes *)
+Fixpoint forget_refresh (b : bhandler) : forget (refresh b) = forget b.
+Proof.
+  destruct b as [o l| |how sc hs]; cbn [refresh forget]; try reflexivity.
+  f_equal. induction hs as [|x xs IH]; cbn [map]; [reflexivity|].
+  rewrite (forget_refresh x), IH. reflexivity.
+Qed.
+Lemma forget_l_refresh bs : forget_l (map refresh bs) = forget_l bs.
+Proof.
+  unfold forget_l. induction bs as [|x xs IH]; cbn [map]; [reflexivity|].
+  rewrite forget_refresh, IH. reflexivity.
+Qed.
+Lemma copy_is_original c bs st m : run c (forget_l bs) st m = run c (forget_l (map refresh bs)) st m.
+Proof. rewrite forget_l_refresh. reflexivity. Qed.
+Lemma copy_is_original_steps c bs st steps :
+  run_steps c (forget_l bs) st steps = run_steps c (forget_l (map refresh bs)) st steps.
+Proof. rewrite forget_l_refresh. reflexivity. Qed.
+Lemma copied_child_same_as_child c how sc hs rest st m :
+  run c (forget_l (BPipe how sc hs :: rest)) st m = run c (HPipe sc (forget_l hs) :: forget_l rest) st m.
+Proof. reflexivity. Qed.
